@@ -1,5 +1,181 @@
-"""placeholder; replaced below"""
-class _R:
-    lines=[]; errors=[]
-    def coverage(self): return {}
-def run_for(prop, root=None): return _R()
+"""
+Mutant self-test: each rule module lists small source edits (`MUTANTS`) that
+break one structural clause while leaving the file syntactically valid.  The
+edited text is analysed in memory (never written to /repo, never executed);
+the named rule must report a violation on the edited tree.
+
+    python3 -m sa.selftest C01            # one property
+    python3 -m sa.selftest --all --strict # all; exit 1 if a mutant is missed
+"""
+
+from __future__ import annotations
+
+import argparse
+import importlib
+import sys
+import time
+from concurrent.futures import ProcessPoolExecutor
+from dataclasses import dataclass, field
+from typing import Optional
+
+from . import core
+from .facts import Repo
+
+
+@dataclass
+class Mutant:
+    id: str
+    file: str
+    old: str
+    new: str
+    rule: str                    # the rule expected to fire
+    why: str = ''
+    count: int = 1               # number of occurrences of `old` expected (all replaced)
+    nth: Optional[int] = None    # replace only the n-th occurrence (0-based) when set
+
+
+@dataclass
+class SelfTestResult:
+    prop: str
+    total: int = 0
+    detected: int = 0
+    stale: list = field(default_factory=list)
+    missed: list = field(default_factory=list)
+    wrong_rule: list = field(default_factory=list)
+    lines: list = field(default_factory=list)
+    errors: list = field(default_factory=list)
+    records: list = field(default_factory=list)
+    wall: float = 0.0
+
+    def coverage(self) -> dict:
+        return {
+            'mutants_run': self.total,
+            'mutants_detected': self.detected,
+            'mutants_stale': [m for m in self.stale],
+            'mutants_missed': [m for m in self.missed],
+            'mutant_samples': self.records[:12],
+        }
+
+
+def apply_mutant(src: str, m: Mutant) -> Optional[str]:
+    n = src.count(m.old)
+    if m.nth is not None:
+        if n <= m.nth:
+            return None
+        idx = -1
+        for _ in range(m.nth + 1):
+            idx = src.find(m.old, idx + 1)
+        return src[:idx] + m.new + src[idx + len(m.old):]
+    if n != m.count:
+        return None
+    return src.replace(m.old, m.new)
+
+
+_BASE: dict = {}
+
+
+def _base(root):
+    if root not in _BASE:
+        _BASE[root] = Repo(root)
+    return _BASE[root]
+
+
+def _run_one(args):
+    prop, idx, root = args
+    mod = importlib.import_module(f'sa.props.{prop.lower()}')
+    m: Mutant = mod.MUTANTS[idx]
+    base = _base(root)
+    if m.file not in base.modules:
+        return (m.id, 'stale', f'{m.file} missing', [])
+    new_src = apply_mutant(base.modules[m.file].src, m)
+    if new_src is None:
+        return (m.id, 'stale', f'anchor text not found {m.count}x in {m.file}', [])
+    repo = base.with_overlay({m.file: new_src})
+    if repo.parse_errors:
+        return (m.id, 'stale', f'mutant does not parse: {repo.parse_errors}', [])
+    res = core.run_rules(repo, mod.RULES, prop, 'quick')
+    known = core.load_known()
+    fired = sorted({i.rule for i in res.instances if not i.ok and core.match_known(i, known) is None})
+    # what fires on the unmutated tree is not credited to the mutant
+    if m.rule in fired:
+        return (m.id, 'detected', m.rule, fired)
+    if fired:
+        return (m.id, 'wrong_rule', f'expected {m.rule}, fired {fired}', fired)
+    if res.errors:
+        return (m.id, 'error_only', '; '.join(e.splitlines()[0] for e in res.errors)[:300], [])
+    return (m.id, 'missed', f'expected {m.rule}', [])
+
+
+def run_for(prop: str, root: str | None = None, jobs: int = 16) -> SelfTestResult:
+    t0 = time.time()
+    mod = importlib.import_module(f'sa.props.{prop.lower()}')
+    muts = getattr(mod, 'MUTANTS', [])
+    out = SelfTestResult(prop)
+    if not muts:
+        out.lines.append(f'selftest {prop}: no mutants defined')
+        return out
+    base = _base(root)
+    # violations already present on the unmutated tree are not credited to mutants
+    base_res = core.run_rules(base, mod.RULES, prop, 'quick')
+    base_fired = {i.rule for i in base_res.instances if not i.ok and core.match_known(i, core.load_known()) is None}
+    args = [(prop, i, root) for i in range(len(muts))]
+    if jobs > 1 and len(muts) > 3:
+        with ProcessPoolExecutor(max_workers=min(jobs, len(muts))) as ex:
+            results = list(ex.map(_run_one, args))
+    else:
+        results = [_run_one(a) for a in args]
+    for (mid, status, info, fired), m in zip(results, muts):
+        out.total += 1
+        rec = {'mutant': mid, 'file': m.file, 'edit': f'{m.old!r} -> {m.new!r}'[:200], 'expected_rule': m.rule,
+               'status': status, 'info': info}
+        out.records.append(rec)
+        if status == 'detected' and m.rule not in base_fired:
+            out.detected += 1
+        elif status == 'detected':
+            out.missed.append(mid)
+            rec['status'] = 'masked'
+            out.lines.append(f'selftest {prop}: mutant {mid} masked: rule {m.rule} already fires on the unedited tree')
+        elif status == 'stale':
+            out.stale.append(mid)
+            out.lines.append(f'selftest {prop}: mutant {mid} stale ({info})')
+        elif status == 'wrong_rule':
+            out.wrong_rule.append(mid)
+            out.detected += 1     # a violation was reported, by a neighbouring rule
+            out.lines.append(f'selftest {prop}: mutant {mid} caught by another rule ({info})')
+        else:
+            out.missed.append(mid)
+            out.lines.append(f'selftest {prop}: mutant {mid} NOT detected ({status}: {info})')
+    out.wall = time.time() - t0
+    out.lines.append(f'selftest {prop}: {out.detected}/{out.total} mutants detected, {len(out.stale)} stale, '
+                     f'{len(out.missed)} missed in {out.wall:.1f}s')
+    return out
+
+
+def main(argv=None) -> int:
+    ap = argparse.ArgumentParser()
+    ap.add_argument('props', nargs='*')
+    ap.add_argument('--all', action='store_true')
+    ap.add_argument('--strict', action='store_true')
+    ap.add_argument('--root', default=None)
+    a = ap.parse_args(argv)
+    from .manifest import ALL
+    props = [p.upper() for p in a.props] or []
+    if a.all:
+        props = []
+        for p in ALL:
+            try:
+                importlib.import_module(f'sa.props.{p.lower()}')
+                props.append(p)
+            except ModuleNotFoundError:
+                pass
+    bad = 0
+    for p in props:
+        r = run_for(p, a.root)
+        for line in r.lines:
+            print(line)
+        bad += len(r.missed) + len(r.stale) + len(r.wrong_rule)
+    return 1 if (a.strict and bad) else 0
+
+
+if __name__ == '__main__':
+    sys.exit(main())
